@@ -158,7 +158,10 @@ class Hardware:
         levels = [(self.tree[self.configs[einsum]], 0)]
         depths_covered = set()
         while levels:
-            level, depth = levels.pop()
+            # Note: visit the levels by depth, so that the path lists the
+            # memories from the outermost to the innermost level whatever the
+            # order of sibling subtrees in the specification
+            level, depth = levels.pop(0)
 
             for component in level.get_local():
                 if not isinstance(component, MemoryComponent):
